@@ -207,6 +207,7 @@ type lcScenario struct {
 	OnDone     bool   `json:"cancel_when_wait_begins"`   // the context is cancelled at the moment Run asks for ctx.Done(), i.e. when the retry wait begins
 	ErrBoth    bool   `json:"failing_exec_returns_error_result_and_error"` // func kind, result-style exec: a failing attempt returns NewErrorResult(e), e
 	PostPanic  bool   `json:"post_panics"`                // the post callback panics
+	FbNil      bool   `json:"fallback_returns_nil_nil"`   // the fallback recovers with a nil value and a nil error
 	WaitFirst  bool   `json:"wait_configured_before_retries"` // WithWait is applied before WithMaxRetries
 	MapPayload bool   `json:"map_payload"`                    // the prep value is a map[string]any (identity must be preserved)
 	PostBoth   bool   `json:"post_returns_action_and_error"`  // post fails and returns a non-empty action next to its error
@@ -283,6 +284,9 @@ func (r *lcRec) doFallback(p any, e error) (any, error) {
 	defer r.leave(i)
 	if r.sc.FbErr {
 		return nil, r.fbErr
+	}
+	if r.sc.FbNil {
+		return nil, nil
 	}
 	return r.fbVal, nil
 }
@@ -427,6 +431,9 @@ func lifecycleScenarios() []lcScenario {
 		for _, n := range []int{1, 2} {
 			extra = append(extra, lcScenario{Kind: kind, N: n, ExecFail: []bool{false}, CancelAt: -1, MapPayload: true, Styles: 0},
 				lcScenario{Kind: kind, N: n, ExecFail: []bool{true, false}, Fallback: true, CancelAt: -1, MapPayload: true, Styles: 7})
+		}
+		for _, n := range []int{1, 2} {
+			extra = append(extra, lcScenario{Kind: kind, N: n, ExecFail: []bool{true, true, true}, Fallback: true, FbNil: true, CancelAt: -1, PostAction: "next"})
 		}
 		extra = append(extra, lcScenario{Kind: kind, N: 1, ExecFail: []bool{false}, CancelAt: -1, PostErr: true, PostBoth: true, PostAction: "leaked"},
 			lcScenario{Kind: kind, N: 1, ExecFail: []bool{false}, CancelAt: -1, PostAction: " "},
@@ -818,6 +825,9 @@ func lifecycleOracle(sc lcScenario, r *lcRec, store *SharedStore, retryable bool
 				}
 			} else {
 				want = r.fbVal
+				if sc.FbNil {
+					want = nil
+				}
 			}
 			if sc.ErrResult && execOK {
 				x, ok := p.exec.(Result)
@@ -856,6 +866,13 @@ func lifecycleOracle(sc lcScenario, r *lcRec, store *SharedStore, retryable bool
 			}
 			if fbs[0].err != r.execErrs[len(r.execErrs)-1] {
 				return fmt.Sprintf("C02: fallback received error %v, want the last attempt's error %v", fbs[0].err, r.execErrs[len(r.execErrs)-1])
+			}
+			// the fallback's outcome replaces the exec outcome
+			if sc.FbErr && !sc.InFlow && (err == nil || !errors.Is(err, r.fbErr)) {
+				return fmt.Sprintf("C02: the fallback failed with %q; its outcome replaces the exec outcome, but the run returned %v", r.fbErr, err)
+			}
+			if !sc.FbErr && !sc.PostErr && !sc.PostPanic && err != nil {
+				return fmt.Sprintf("C02: the fallback recovered (value %v, nil error), yet the run returned %v", r.fbVal, err)
 			}
 		}
 	}
